@@ -191,3 +191,74 @@ def boundary_programs(block):
                             ['diff', dkw]]})
 
     return out
+
+
+REFUSED_ANYWHERE = [
+    ['preamble', {'text': ''}],
+    ['preamble', {'text': 'x', 'line_endings': 'mac'}],
+    ['preamble', {'text': 'x', 'encoding': 'no-such-codec'}],
+    ['preamble', {'text': 'R\xe9sum\xe9', 'encoding': 'ascii'}],
+    ['meta', {'metadata': {}}],
+    ['meta', {'metadata': {'k': 1}, 'meta_format': 'yaml'}],
+    ['meta', {'metadata': {'k': 1}, 'encoding': 'no-such-codec'}],
+    ['diff', {'content': b''}],
+    ['diff', {'content': b'x\n', 'diff_type': 'patch'}],
+    ['diff', {'content': b'x\n', 'line_endings': 'mac'}],
+]
+
+
+def write_program_with_refused_calls(program):
+    """Like write_program, but after every accepted call every call that
+    must be refused there (invalid arguments, or a container the order
+    forbids) is attempted.  Returns (bytes, problem or None)."""
+    ns = sut.load()
+    stream = io.BytesIO()
+    main = program.get('encoding', 'utf-8')
+    writer = ns.DiffXWriter(stream, encoding=main)
+    w = spec.Walker(main)
+
+    def refuse_all():
+        for op, kw in REFUSED_ANYWHERE:
+            before = stream.getvalue()
+
+            try:
+                gen.call_writer(writer, op, kw)
+            except Exception:
+                if stream.getvalue() != before:
+                    return 'refused-call-wrote-bytes', '%s%r' % (op, kw)
+
+                continue
+
+            return 'invalid-call-accepted', '%s%r after %s' % (op, kw, w.prev)
+
+        for op in ('change', 'file'):
+            if not w.accepts(op):
+                try:
+                    gen.call_writer(writer, op, {'encoding': 'utf-32-le'})
+                except Exception:
+                    continue
+
+                return 'illegal-container-call-accepted', op
+
+        return None
+
+    res = refuse_all()
+
+    if res:
+        return stream.getvalue(), res
+
+    for op, kw in program['calls']:
+        try:
+            gen.call_writer(writer, op, kw)
+        except Exception as e:
+            return stream.getvalue(), ('legal-call-rejected-after-refused-'
+                                       'calls', '%s after %s: %r'
+                                       % (op, w.prev, e))
+
+        w.advance(op, kw)
+        res = refuse_all()
+
+        if res:
+            return stream.getvalue(), res
+
+    return stream.getvalue(), None
